@@ -97,7 +97,7 @@ func buildSchema(s *schemaDef) (*graphql.Schema, error) {
 			if !ok || ov == nil {
 				return nil, &resolverError{"not an object value"}
 			}
-			o, ok := ov.fields[fname]
+			o, ok := ov.fields[fieldKey(fname, ctx.Arguments)]
 			if !ok {
 				return nil, &resolverError{"no outcome"}
 			}
@@ -108,7 +108,8 @@ func buildSchema(s *schemaDef) (*graphql.Schema, error) {
 		switch t.kind {
 		case "object":
 			for _, f := range t.fields {
-				objs[t.name].Fields[f.name] = &graphql.FieldDefinition{Type: mk(f.ty), Resolve: resolver(f.name)}
+				objs[t.name].Fields[f.name] = &graphql.FieldDefinition{Type: mk(f.ty), Resolve: resolver(f.name),
+					Arguments: argumentDefinitions(t.fargs[f.name], mk)}
 			}
 			for _, i := range t.ifaces {
 				objs[t.name].ImplementedInterfaces = append(objs[t.name].ImplementedInterfaces, ifaces[i])
@@ -192,7 +193,8 @@ func schemaSexp(s *schemaDef) sexp.Node {
 		}
 		ts = append(ts, sexp.L(sexp.Str(t.name), d))
 	}
-	return sexp.T("schema", sexp.L(ts...), sexp.Str(s.query), opt(s.mutation), sexp.None())
+	ins, ads := inputsSexp(s)
+	return sexp.T("schema", sexp.L(ts...), sexp.Str(s.query), opt(s.mutation), sexp.None(), ins, ads)
 }
 
 func posSexp(n ast.Node) sexp.Node {
@@ -233,6 +235,13 @@ func selsSexp(ss *ast.SelectionSet) (sexp.Node, []selInfo) {
 				alias = sexp.Some(sexp.Str(s.Alias.Name))
 			}
 			sub, subInfo := selsSexp(s.SelectionSet)
+			if len(s.Arguments) > 0 {
+				al := []sexp.Node{posSexp(s)}
+				for _, a := range s.Arguments {
+					al = append(al, sexp.L(sexp.Str(a.Name.Name), astValueSexp(a.Value)))
+				}
+				nodeArgs = append(nodeArgs, sexp.L(al...))
+			}
 			out = append(out, sexp.T("field", alias, sexp.Str(s.Name.Name), posSexp(s), dirsSexp(s.Directives), sub))
 			info = append(info, selInfo{kind: "field", name: s.Name.Name, sub: subInfo})
 		case *ast.FragmentSpread:
@@ -262,7 +271,12 @@ type parsedDoc struct {
 // name the case carries the short form (doc ...), otherwise (request opname (ops) frags).  kind and
 // opSels (for the outcome generator only) are those of the operation named opName, or of the
 // first one.
+// the arguments of the field nodes met by selsSexp, by node position (reset by docSexp)
+var nodeArgs []sexp.Node
+
 func docSexp(doc *ast.Document, opName string) parsedDoc {
+	nodeArgs = nil
+	hasVarDefs := false
 	out := parsedDoc{frags: map[string]fragInfo{}, kind: "query"}
 	var frs, ops []sexp.Node
 	var opPos, opSels sexp.Node
@@ -279,7 +293,18 @@ func docSexp(doc *ast.Document, opName string) parsedDoc {
 				name = sexp.Some(sexp.Str(d.Name.Name))
 			}
 			sels, info := selsSexp(d.SelectionSet)
-			ops = append(ops, sexp.T("op", name, sexp.Sym(kind), posSexp(d), sels))
+			var vds []sexp.Node
+			for _, vd := range d.VariableDefinitions {
+				dv := sexp.None()
+				if vd.DefaultValue != nil {
+					dv = sexp.Some(astValueSexp(vd.DefaultValue))
+				}
+				vds = append(vds, sexp.L(sexp.L(sexp.Str(vd.Variable.Name.Name), astTypeSexp(vd.Type), dv), posSexp(vd.Variable)))
+			}
+			if len(vds) > 0 {
+				hasVarDefs = true
+			}
+			ops = append(ops, sexp.T("op", name, sexp.Sym(kind), posSexp(d), sels, sexp.L(vds...)))
 			if !chosen && (len(ops) == 1 || (d.Name != nil && d.Name.Name == opName)) {
 				out.kind, out.opSels, opPos, opSels = kind, info, posSexp(d), sels
 				chosen = d.Name != nil && d.Name.Name == opName
@@ -290,10 +315,10 @@ func docSexp(doc *ast.Document, opName string) parsedDoc {
 			out.frags[d.Name.Name] = fragInfo{cond: d.TypeCondition.Name.Name, sels: info}
 		}
 	}
-	if len(ops) == 1 && opName == "" {
+	if len(ops) == 1 && opName == "" && len(nodeArgs) == 0 && !hasVarDefs {
 		out.node = sexp.T("doc", sexp.Sym(out.kind), opPos, opSels, sexp.L(frs...))
 	} else {
-		out.node = sexp.T("request", sexp.Str(opName), sexp.L(ops...), sexp.L(frs...))
+		out.node = sexp.T("request", sexp.Str(opName), sexp.L(ops...), sexp.L(frs...), sexp.L(nodeArgs...))
 	}
 	return out
 }
@@ -393,3 +418,5 @@ func observe(resp *graphql.Response) sexp.Node {
 	}
 	return sexp.T("obs", d, sexp.L(errs...))
 }
+
+// ---- one case ----
